@@ -4,12 +4,12 @@
    The extracted model is run against the real containers on every ./check (T-cor). *)
 From Coq Require Import ZArith List Bool.
 From MomoCommon Require Import GenPrelude.
-From C14 Require Import PropagationModel Model Proofs Bodies BodiesProofs Crew GenProofs GenProofs2 GenProofs3 GenProofs4 GenProofs5 GenProofs6.
+From C14 Require Import PropagationModel Model Proofs Bodies BodiesProofs Crew GenProofs GenProofs2 GenProofs3 GenProofs4 GenProofs5 GenProofs6 GenProofs7.
 From C14 Require Gen_TreeSet Gen_HashSet Gen_HashMultiMap Gen_DataTable Gen_SetCrew Gen_CrewContract.
 From C14 Require Gen_SetCrew2 Gen_SetCrewInl Gen_TreeSet2 Gen_HashSet2 Gen_DataTable2 Gen_MemPool Gen_MemPoolData Gen_MergeToFacts.
 From C14 Require Gen_TreeSet3 Gen_HashSet3 Gen_TableCrew Gen_DataTable3 Gen_HashMultiMap2 Gen_AssignShapes Gen_StdishDecisions.
 From C14 Require Gen_PvAssignTable Gen_CtorCatch Gen_ArrayData.
-From C14 Require Pack Gen_ValueCrew Gen_HashMap3 Gen_HashMultiMap3.
+From C14 Require Pack Gen_ValueCrew Gen_HashMap3 Gen_HashMultiMap3 Gen_ArrayDataIC.
 Import ListNotations.
 Local Open Scope Z_scope.
 
@@ -968,3 +968,53 @@ Theorem C14_clear_refines_generated_fields :
        Gen_HashMultiMap.Clear (crew_null_of c) (count_of c) = GenPrelude.Ok (tt, count_of c')).
 Proof. exact clear_refines_generated_fields. Qed.
 Print Assumptions C14_clear_refines_generated_fields.
+
+(* ------------------------------------------------------------------------------------------------------------------ *)
+(* Last round: the internal-capacity instantiation of Array::Data (ArrayIntCap<4, int>) generated as Gen_ArrayDataIC.
+   ia / da = the addresses of the two objects' internal buffers (read-only ghost fields for `&mInternalItems`);
+   ItemTraits::Relocate / Destroy (element effects) are skipped by the translation. *)
+(* the source holds a heap block: manager, block, count, capacity go to the target; the source falls back to its own internal
+   buffer; the target's old heap block (capacity > internalCapacity) is released through the target's OLD manager *)
+Theorem C14_gen_arrayic_move_assign_external :
+  forall m i n c dm di dn dc fv ia da, di <> da ->
+    Gen_ArrayDataIC.MoveAssign false m i n c dm di dn dc fv ia da =
+      (dm, di, dn, dc, da, 0, if Z.gtb (if Z.eqb i ia then 4 else c) 4 then m else fv).
+Proof. exact gen_arrayic_move_assign_external. Qed.
+Print Assumptions C14_gen_arrayic_move_assign_external.
+
+(* the source uses its internal buffer: no pointer is taken, the target uses its OWN internal buffer *)
+Theorem C14_gen_arrayic_move_assign_internal :
+  forall m i n c dm dn dc fv ia da,
+    Gen_ArrayDataIC.MoveAssign false m i n c dm da dn dc fv ia da =
+      (dm, ia, dn, c, da, 0, if Z.gtb (if Z.eqb i ia then 4 else c) 4 then m else fv).
+Proof. exact gen_arrayic_move_assign_internal. Qed.
+Print Assumptions C14_gen_arrayic_move_assign_internal.
+
+Theorem C14_gen_arrayic_move_ctor_clear :
+  (forall jm ji jn jc dm di dn dc fv ia da, di <> da ->
+     Gen_ArrayDataIC.MoveCtor jm ji jn jc dm di dn dc fv ia da = (dm, di, dn, dc, da, 0)) /\
+  (forall jm ji jn jc dm dn dc fv ia da,
+     Gen_ArrayDataIC.MoveCtor jm ji jn jc dm da dn dc fv ia da = (dm, ia, dn, jc, da, 0)) /\
+  (forall m i n c dm di dn dc fv ia da,
+     Gen_ArrayDataIC.Clear m i n c dm di dn dc fv ia da = (ia, 0, if Z.gtb (if Z.eqb i ia then 4 else c) 4 then m else fv)).
+Proof. exact gen_arrayic_move_ctor_clear. Qed.
+Print Assumptions C14_gen_arrayic_move_ctor_clear.
+
+(* REFINEMENT to the internalCapacity = 0 instantiation (Gen_ArrayData, C14_gen_array_move_assign): under the abstraction
+   "internal buffer = no block, capacity 0" the two generated operator=(Data&&) agree on everything *)
+Theorem C14_arrayic_refines_array0 :
+  forall so m i n c dm di dn dc fv ia da,
+    ic_inv i c ia -> ic_inv di dc da -> (di <> da -> di <> ia) ->
+    let '(m', i', n', c', di', dn', fv') := Gen_ArrayDataIC.MoveAssign so m i n c dm di dn dc fv ia da in
+    let '(gm, gi, gn, gc, gdi, gdn, gdc, gfv) :=
+      Gen_ArrayData.MoveAssign so m (absI i ia) n (absC i c ia) dm (absI di da) dn (absC di dc da) fv in
+    m' = gm /\ absI i' ia = gi /\ n' = gn /\ absC i' c' ia = gc /\ absI di' da = gdi /\ dn' = gdn /\ fv' = gfv.
+Proof. exact arrayic_refines_array0. Qed.
+Print Assumptions C14_arrayic_refines_array0.
+
+(* the invariant is satisfiable (heap block of capacity 9; internal buffer) and the internal case is not vacuous *)
+Theorem C14_arrayic_refinement_nonvacuous :
+  ic_inv 100 9 7 /\ ic_inv 7 0 7 /\
+  Gen_ArrayDataIC.MoveAssign false 1 100 3 9 2 8 2 0 (-1) 7 8 = (2, 7, 2, 9, 8, 0, 1).
+Proof. exact arrayic_refinement_nonvacuous. Qed.
+Print Assumptions C14_arrayic_refinement_nonvacuous.
